@@ -1273,6 +1273,7 @@ def run(ctx: Ctx) -> None:
     import postsel
 
     postsel.run_stream(ctx, pyrandom.Random(f"C05-postsel-{ctx.seed}"), ctx.n(200, 3000))
+    threshold_stream(ctx, pyrandom.Random(f"C05-threshold-{ctx.seed}"))
     streams = set((os.environ.get("C05_STREAMS") or "1,2,3,4").split(","))  # experiments only
     if streams != {"1", "2", "3", "4"}:
         ctx.notes.append(f"only streams {sorted(streams)} were run (C05_STREAMS)")
@@ -1330,9 +1331,46 @@ def run(ctx: Ctx) -> None:
             _report(ctx, case, probs, lambda cs: _shrink_steps(ctx, cs))
 
 
+def threshold_stream(ctx: Ctx, rng) -> None:
+    """the global `sampler_probability_threshold` raised (always restored): the Sampler drops every state whose ABSOLUTE
+    probability is below it, and the other objects must describe the same truncated distribution (the QuickSampler
+    conditions and renormalises what is left) - relations that are invisible at the default 1e-9"""
+    from lightworks.__settings import settings as lw_settings
+
+    default = lw_settings.sampler_probability_threshold
+    try:
+        for _ in range(ctx.n(30, 400)):
+            if ctx.out_of_time():
+                break
+            case = gen_case(ctx, rng)
+            if case is None:
+                continue
+            thr = rng.choice([1e-6, 1e-4, 1e-3, 3e-3, 1e-2, 3e-2])
+            lw_settings.sampler_probability_threshold = thr
+            case = {**case, "threshold": thr}
+            probs = run_case(ctx, case)
+            lw_settings.sampler_probability_threshold = default
+            ctx.count(f"global_threshold:{thr:g}")
+            ctx.case(json.dumps(case), True)
+            if probs:
+                probs = [p + f" [settings.sampler_probability_threshold = {thr:g}]" for p in probs]
+                oracle = [p for p in probs if p.startswith("oracle")]
+                rp = {"case": case, "problems": probs}
+                if oracle:
+                    ctx.violation(oracle[0], rp, sig={"kind": "global-threshold"})
+                else:
+                    ctx.disagreement(probs[0], rp)
+    finally:
+        lw_settings.sampler_probability_threshold = default
+
+
 def replay(ctx: Ctx, path: str) -> None:
     data = json.load(open(path))["replay"]
     case = data["case"]
+    if "threshold" in case:
+        from lightworks.__settings import settings as lw_settings
+
+        lw_settings.sampler_probability_threshold = case["threshold"]
     probs = run_history(ctx, case) if case.get("kind") == "history" else run_case(ctx, case)
     ctx.case("replay", True, sample={k: v for k, v in case.items() if not k.startswith("_")})
     for p in probs:
